@@ -1,4 +1,5 @@
 import LlirProofs.HistoryLemmas
+import LlirModel.Generated.Facts
 /-! # C14 — Observing the IR never changes it (property theorems only)
 
 M-History (LlirModel/History.lean). The FULL statement is false for the code as it is (witness below,
@@ -46,6 +47,19 @@ theorem all_named_never_panics (st : List Slot) (hn : ∀ s ∈ st, s.counts = t
   refine ⟨_, C08.fresh_is_numbered st 0 ?_⟩
   intro s hs hc hnm
   have := hn s hs hc; rw [this] at hnm; cases hnm
+
+/-- Cached types are settled by the constructors, not by the first observer: every free constructor `NewX` of package ir
+    whose struct has a cached `Typ` field sets it or calls `.Type()` before returning (REGENERATED from the source on every
+    run, go/ast). A lazily typed constructor would let `Type()` / `String()` / a print decide which state gets cached. -/
+theorem constructors_settle_types : Llir.Generated.Facts.lazyConstructors = [] := by decide
+
+/-- Observers do not store into their receiver: over all methods of the printing packages (ir, ir/types, ir/constant, ir/metadata, ir/enum,
+    ir/value, internal/enc) that are not setters, constructors, the numbering pass or a `Type()` filling its `Typ` cache (REGENERATED from the
+    source on every run, go/ast), the only stores into a receiver field are `Succs()` refreshing `Successors` (recomputed on every call: C15) and
+    the byte counter of the private fmtWriter. A `String()` / `LLString()` / `Equal()` that caches makes the text depend on the query history. -/
+theorem observers_do_not_store :
+    Llir.Generated.Facts.observerWrites.all (fun r => (r.2.2.1 == "Succs" && r.2.2.2 == "Successors") || r.2.1 == "fmtWriter") = true := by
+  decide +kernel
 
 /-- The full statement is FALSE for the code as it is: print, insert an unnamed value before an already
     numbered one, print again — the second print panics ("expected %2, got %1"); without the first
